@@ -31,10 +31,18 @@ def integral(cls, h):
 
 
 def _getter_paths(chk, shapes, cls, member, fkey):
+    """returning paths of the getter; if the (possibly changed) code leaves the engine's subset the member is recorded as
+    undecided and the check continues"""
     def run():
         obj = make_curved(shapes, cls)
         return getattr(obj, member)
-    return [p for p in chk.explore(fkey, run) if p.kind == "return"]
+    out = []
+
+    def body():
+        out.extend(p for p in chk.explore(fkey, run) if p.kind == "return")
+    if not chk.section(f"{cls}.{member}", fkey, body):
+        return None
+    return out
 
 
 def _order(pc, syms):
@@ -137,9 +145,9 @@ def run(chk):
         key = (cls, member)
         if key not in cache:
             cache[key] = _getter_paths(chk, shapes, cls, member, fkey)
-            if not cache[key]:
+            if cache[key] is not None and not cache[key]:
                 chk.errors.append(f"{cls}.{member}: no returning path")
-        for p in cache[key]:
+        for p in cache[key] or []:
             name = f"{cls}.{member}:{clause}" + (f"[{path_tag(p)}]" if len(cache[key]) > 1 else "")
             chk.prove_eq(name, fkey, p.pc, extract(p.value), spec,
                          replay=scalar_replay(cls, observe, spec))
@@ -153,32 +161,32 @@ def run(chk):
         centred = {X: X - cx, Y: Y - cy}
         ix0 = integral(cls, ((Y - cy) ** 2))
         iy0 = integral(cls, ((X - cx) ** 2))
-        for p in cache[(cls, "planar_moments_inertia")]:
+        for p in cache[(cls, "planar_moments_inertia")] or []:
             chk.prove_eq(f"{cls}.planar_moments_inertia:Ix:deviation", fkey, p.pc, ex(p.value[0]), ix0 + area * cx**2)
             chk.prove_eq(f"{cls}.planar_moments_inertia:Iy:deviation", fkey, p.pc, ex(p.value[1]), iy0 + area * cy**2)
 
     # ------------------------------------------------------------------ Ellipse: eccentricity, perimeter, iq
     E = externals.ellipe_f
     fk_e = chk.function("coxeter.shapes.ellipse", "Ellipse.eccentricity[get]")
-    for p in _getter_paths(chk, shapes, "Ellipse", "eccentricity", fk_e):
+    for p in _getter_paths(chk, shapes, "Ellipse", "eccentricity", fk_e) or []:
         order = _order(p.pc, (a, b))
         big, small = order
         spec = sp.sqrt(1 - small**2 / big**2)
         chk.prove_eq(f"Ellipse.eccentricity:post[{path_tag(p)}]", fk_e, p.pc, ex(p.value), spec,
                      replay=scalar_replay("Ellipse", lambda o: o.eccentricity, sp.sqrt(1 - sp.Min(a, b)**2 / sp.Max(a, b)**2)))
     fk_p = chk.function("coxeter.shapes.ellipse", "Ellipse.perimeter[get]")
-    per_paths = _getter_paths(chk, shapes, "Ellipse", "perimeter", fk_p)
+    per_paths = _getter_paths(chk, shapes, "Ellipse", "perimeter", fk_p) or []
     for p in per_paths:
         big, small = _order(p.pc, (a, b))
         spec = 4 * big * E(1 - small**2 / big**2)
         chk.prove_eq(f"Ellipse.perimeter:post[{path_tag(p)}]", fk_p, p.pc, ex(p.value), spec)
     fk_c = chk.function("coxeter.shapes.ellipse", "Ellipse.circumference[get]")
-    for p in _getter_paths(chk, shapes, "Ellipse", "circumference", fk_c):
+    for p in _getter_paths(chk, shapes, "Ellipse", "circumference", fk_c) or []:
         big, small = _order(p.pc, (a, b))
         chk.prove_eq(f"Ellipse.circumference:post[{path_tag(p)}]", fk_c, p.pc, ex(p.value),
                      4 * big * E(1 - small**2 / big**2))
     fk_q = chk.function("coxeter.shapes.ellipse", "Ellipse.iq[get]")
-    for p in _getter_paths(chk, shapes, "Ellipse", "iq", fk_q):
+    for p in _getter_paths(chk, shapes, "Ellipse", "iq", fk_q) or []:
         big, small = _order(p.pc, (a, b))
         per = 4 * big * E(1 - small**2 / big**2)
         quotient = 4 * sp.pi * integral("Ellipse", 1) / per**2
@@ -189,7 +197,7 @@ def run(chk):
     # ------------------------------------------------------------------ Ellipsoid surface: Legendre form, all orderings
     EI, KI = externals.ellipeinc_f, externals.ellipkinc_f
     fk_s = chk.function("coxeter.shapes.ellipsoid", "Ellipsoid.surface_area[get]")
-    sa_paths = _getter_paths(chk, shapes, "Ellipsoid", "surface_area", fk_s)
+    sa_paths = _getter_paths(chk, shapes, "Ellipsoid", "surface_area", fk_s) or []
     seen_orders = set()
     for p in sa_paths:
         order = _order(p.pc, (a, b, c))
@@ -231,6 +239,10 @@ def run(chk):
 
     # ------------------------------------------------------------------ canaries (must NOT be provable)
     fk0 = chk.function("coxeter.shapes.circle", "Circle.area[get]")
-    chk.canary_eq("canary:Circle.area==2*integral", fk0, ex(cache[("Circle", "area")][0].value), 2 * integral("Circle", 1))
+    if cache.get(("Circle", "area")):
+        chk.canary_eq("canary:Circle.area==2*integral", fk0, ex(cache[("Circle", "area")][0].value), 2 * integral("Circle", 1))
     chk.canary("canary:Ellipse.iq<1", fk_q, [sp.Gt(a, 0), sp.Gt(b, 0)], sp.Lt(sp.Min(sp.Symbol("q", real=True), 1), 1))
-    chk.reachable("curved constructors", fk0, cache[("Circle", "area")][0].pc)
+    if cache.get(("Circle", "area")):
+        chk.reachable("curved constructors", fk0, cache[("Circle", "area")][0].pc)
+    from .bounded_c10 import run_bounded
+    run_bounded(chk)
